@@ -43,7 +43,27 @@ Definition ap1 (f : fn1) (v : val) : val :=
   | FDup => VPair v v
   end.
 
-Inductive pred := PTrue | PFalse | PTokIn (ts : list tok) | PTokNotIn (ts : list tok).
+Fixpoint list_eqN (a b : list tok) : bool :=
+  match a, b with
+  | [], [] => true
+  | x :: a', y :: b' => andb (N.eqb x y) (list_eqN a' b')
+  | _, _ => false
+  end.
+
+(* the tokens a context value denotes, for just(..).configure(|cfg, ctx| cfg.seq(ctx)) *)
+Fixpoint val_toks (v : val) : list tok :=
+  match v with
+  | VTok t => [t]
+  | VList l => flat_map val_toks l
+  | VPair a b => val_toks a ++ val_toks b
+  | VOpt (Some x) => val_toks x
+  | VTag _ x => val_toks x
+  | _ => []
+  end.
+
+Inductive pred := PTrue | PFalse | PTokIn (ts : list tok) | PTokNotIn (ts : list tok)
+| PFun (f : tok -> bool)            (* an arbitrary character class (only in theorems; case files use PTokIn) *)
+| PToksAre (ts : list tok).         (* the tokens inside the value are exactly ts *)
 
 Fixpoint memN (t : tok) (l : list tok) : bool :=
   match l with [] => false | x :: r => if N.eqb t x then true else memN t r end.
@@ -54,6 +74,8 @@ Definition holds (p : pred) (v : val) : bool :=
   | PFalse => false
   | PTokIn ts => match first_tok v with Some t => memN t ts | None => false end
   | PTokNotIn ts => match first_tok v with Some t => negb (memN t ts) | None => true end
+  | PFun f => match first_tok v with Some t => f t | None => false end
+  | PToksAre ts => list_eqN (val_toks v) ts
   end.
 
 (* map_with closures: what they read from MapExtra *)
@@ -66,17 +88,6 @@ Definition apmw (f : mw) (v : val) (sp : span) (sl : span) (ust : N) (ctx : val)
   | MWCtx => VPair v ctx
   | MWAll => VPair v (VPair (VSpan (fst sp) (snd sp)) (VPair (VNum ust) ctx))
   | MWSlice => VPair v (VSlice (fst sl) (snd sl))
-  end.
-
-(* the tokens a context value denotes, for just(..).configure(|cfg, ctx| cfg.seq(ctx)) *)
-Fixpoint val_toks (v : val) : list tok :=
-  match v with
-  | VTok t => [t]
-  | VList l => flat_map val_toks l
-  | VPair a b => val_toks a ++ val_toks b
-  | VOpt (Some x) => val_toks x
-  | VTag _ x => val_toks x
-  | _ => []
   end.
 
 (* the number a context value denotes, for repeated().configure(|cfg, ctx| cfg.exactly(ctx)) *)
